@@ -50,7 +50,7 @@ MIXES = [
 
 def plan(tier):
     if tier == "thorough":
-        return {"families": 12000, "budget_s": 2400, "grace_s": 600}
+        return {"families": 120000, "budget_s": 2400, "grace_s": 600}
     return {"families": 800, "budget_s": 170, "grace_s": 240}
 
 
